@@ -92,6 +92,7 @@ class Trace:
         self.reused_complete_trades = set()  # a new order was placed in an already COMPLETE trade (outside C10)
         self.distinct = set()
         self.rng = None
+        self.sample_siblings = False  # event-grouped runs: sample the orders of the other open markets at every book callback
         self.want_positions = False  # snapshot the strategy's position at PLACE/REPLACE requests (C01)
         self.observers = []  # callables (tr, market, phase) run inside auditor callbacks
         self.mw_observers = []  # same, run inside the auditor middleware
@@ -831,6 +832,12 @@ class AuditStrategy(BaseStrategy):
         tr.callbacks.append({"seq": tr.nseq(), "tick": tr.tick, "strategy": self.name, "kind": kind, "market": market.market_id, "pt": pt, "now": _dt.datetime.utcnow()})
         for order in market.blotter:
             sample_order(tr, order, kind, market)
+        if tr.sample_siblings and kind == "book":
+            # event-grouped runs: a strategy called for this market can also look at its orders in the sibling markets
+            for other in tr.framework.markets:
+                if other is not market and not other.closed and other.market_book is not None:
+                    for order in other.blotter:
+                        sample_order(tr, order, "sibling", other)
         for obs in tr.observers:
             obs(tr, market, kind)
 
@@ -1100,6 +1107,7 @@ def run_case(case, extra_strategies=None, audit=True, pre_run=None, observers=()
     tr = Trace()
     tr.observers = list(observers)
     tr.want_positions = want_positions
+    tr.sample_siblings = bool(case.get("sample_siblings"))
     import random as _random
 
     tr.rng = _random.Random(case.get("seed", 0) * 7 + case.get("idx", 0))
